@@ -379,7 +379,7 @@ func (d *MarchingCanvas) AddFieldParallel2(field Field) {
 	chunkSections := d.chunkSectionsInRange(min, max)
 
 	workers := runtime.NumCPU()
-	numJobs := len(chunkSections)
+	numJobs := len(chunkSections) * len(field.Float1Functions)
 	jobs := make(chan *job, numJobs)
 	results := make(chan *job, numJobs)
 
